@@ -390,7 +390,11 @@ async fn step(c: usize, cop: Cop) {
                 1 => SA::<1>::setup().await,
                 _ => SA::<2>::setup().await,
             };
-            e(&[ev::RET as usize, o, if r.is_ok() { ev::R_OK } else { ev::R_ERR } as usize, 0]);
+            if r.is_ok() {
+                e(&[ev::RET as usize, o, ev::R_OK as usize]);
+            } else {
+                e(&[ev::RET as usize, o, ev::R_ERR as usize, 0]);
+            }
         }
         Cop::Register { h } | Cop::Replace { h } => {
             let replace = matches!(cop, Cop::Replace { .. });
